@@ -150,12 +150,12 @@ def _mut(rel: str, pid: str, desc: str, fn):
     return {"rel": rel, "pid": pid, "desc": desc, "fn": fn}
 
 
-def _each(rel: str, src: dict[str, str], pred, rewrite, pid: str, what: str, limit: int = 6):
+def _each(rel: str, src: dict[str, str], pred, rewrite, pid: str, what: str, limit: int = 6, start: int = 0):
     """One mutant per AST node of `rel` satisfying pred, rewritten by `rewrite(node) -> node | None (delete)`."""
     out = []
     tree = ast.parse(src[rel])
     targets = [n for n in ast.walk(tree) if pred(n)]
-    for i, _ in enumerate(targets[:limit]):
+    for i, _ in list(enumerate(targets))[start:start + limit]:
         def make(i=i):
             t = ast.parse(src[rel])
             nodes = [n for n in ast.walk(t) if pred(n)]
@@ -253,7 +253,8 @@ def firing_mutants(src: dict[str, str]) -> list[dict]:
     # C20: skipToken memo store dropped
     m += _each("parser_inline.py", src, lambda n: isinstance(n, ast.Assign) and U(n.targets[0]) == "cache[pos]", lambda n: ast.Pass(), "C20", "cache[pos] store dropped", 1)
     # C10: rule enabled test dropped from __compile__
-    m += _each("ruler.py", src, lambda n: isinstance(n, ast.If) and U(n.test) == "not rule.enabled", lambda n: ast.Pass(), "C10", "`if not rule.enabled: continue` dropped", 2)
+    m += _each("ruler.py", src, lambda n: isinstance(n, ast.If) and U(n.test) == "not rule.enabled", lambda n: ast.Pass(), "C10", "`if not rule.enabled: continue` dropped in the chain-filling loop", 1, start=1)
+    # (the same test in the loop that only collects chain names is an equivalent mutant: it adds empty chains, nothing else)
     # C09: a table entry removed
     def drop_elt(n):
         n = copy.deepcopy(n)
